@@ -1,1 +1,318 @@
--- property theorems for C05 (stub)
+/- C05 — fibers follow the coroutine and signal protocol: property theorems over Fiber/Model.lean + Fiber/Boot.lean.
+   Every statement quantifies over all machine states / stacks (nesting depths) / scripts; constants (signal and
+   status numbers, mask letters, refused-status sets) come from Gen/Fiber.lean, regenerated from the C on every run. -/
+import JanetModel.Fiber.Lemmas
+namespace JanetModel.Props.C05
+open JanetModel.Fiber JanetModel.Gen.Fiber
+
+/-! ## finished fibers -/
+
+/-- ★ A finished fiber (dead, error, user0-4) is refused by `janet_check_can_resume`, for resume and for cancel. -/
+theorem finished_never_resumes (fp : Fiber) (isCancel : Bool) (h : isFinished fp.status = true) :
+    (checkCanResume fp isCancel).isSome = true := by
+  unfold isFinished at h
+  have h1 : refuseResume.contains fp.status = true := ((Bool.and_eq_true _ _).mp h).1
+  unfold checkCanResume
+  by_cases hr : fp.root = true
+  · simp [hr]
+  · rw [if_neg hr, if_pos h1]; rfl
+
+/-- … and at instruction level: `(resume f a)` / `(cancel f a)` on a finished fiber raises an error in the caller;
+    the finished fiber is not entered (the state handed to `raise` is the unchanged `s`). -/
+theorem resume_finished_raises (s : State) (p : FId) (fp : Fiber) (rest : List FId) (l : Nat) (k : Tm) (f a : Atom)
+    (g : FId) (fg : Fiber) (hf : evalAtom s fp.env f = .fib g) (hg : s.fiber? g = some fg) (hfin : isFinished fg.status = true) :
+    (∃ msg, execPrim s p fp rest l (.resume f a) k = raise s p fp rest sigError msg) ∧
+    (∃ msg, execPrim s p fp rest l (.cancel f a) k = raise s p fp rest sigError msg) := by
+  have h0 := finished_never_resumes fg false hfin
+  have h1 := finished_never_resumes fg true hfin
+  constructor
+  · cases hc : checkCanResume fg false with
+    | none => simp [hc] at h0
+    | some msg => exact ⟨msg, by simp [execPrim, hf, hg, hc]⟩
+  · cases hc : checkCanResume fg true with
+    | none => simp [hc] at h1
+    | some msg => exact ⟨msg, by simp [execPrim, hf, hg, hc]⟩
+
+/-- Non-vacuity: the finished statuses are exactly dead, error, user0 … user4; new / pending / user5-9 / debug are resumable. -/
+example : (List.range 16).filter isFinished = [stDead, stError, stUser0, stUser1, stUser2, stUser3, stUser4] := by decide
+example : checkCanResume { status := stPending, mask := 0, ctl := .run (.ret (.lit .nil)) } false = none := by decide
+example : checkCanResume { status := stNew, mask := 0, ctl := .run (.ret (.lit .nil)) } true = none := by decide
+
+/-! ## values -/
+
+/-- ★ Values pass unchanged (downwards, through any depth of child chaining): `janet_continue_no_check f v` either
+    enters run_vm of the innermost fiber of the chain with exactly `v`, or is refused with an error, or stops. -/
+theorem values_pass_unchanged_in_order : ∀ (fuel : Nat) (s : State) (stk : List FId) (f : FId) (v : Val),
+    (∃ s' stk' d fd, contNoCheck fuel s stk f v = startRun s' stk' d fd v) ∨
+    (∃ s' stk' c msg, contNoCheck fuel s stk f v = unwind s' stk' c sigError msg) ∨
+    (∃ s' h, contNoCheck fuel s stk f v = State.stop s' h) := by
+  intro fuel
+  induction fuel with
+  | zero => intro s stk f v; exact Or.inr (Or.inr ⟨s, _, rfl⟩)
+  | succ n ih =>
+    intro s stk f v
+    unfold contNoCheck
+    split
+    · exact Or.inr (Or.inr ⟨s, _, rfl⟩)
+    · simp only []
+      split
+      · split
+        · exact Or.inr (Or.inr ⟨_, _, rfl⟩)
+        · split
+          · exact Or.inr (Or.inl ⟨_, _, _, _, rfl⟩)
+          · exact ih _ _ _ _
+      · exact Or.inl ⟨_, _, _, _, rfl⟩
+
+/-- … and `startRun` / `deliverValue` hand that same value to the blocked instruction: it is bound, unchanged, to the
+    next slot of the receiving fiber, whose code continues with the instruction's continuation. -/
+theorem deliver_binds_value (s : State) (p : FId) (fp : Fiber) (l : Nat) (k : Tm) (v : Val) (hp : p < s.fibers.length) :
+    (deliverValue s p fp (.bindK l k false) v).fiber? p = some { fp with env := fp.env ++ [v], ctl := .run k } := by
+  unfold deliverValue
+  rw [fiber?_log]
+  unfold State.setFiber State.fiber?
+  simp [hp]
+
+/-! ## signals: nearest accepting fiber, and no other -/
+
+/-- The signal `(sig, v)` raised by `c` passes the callers `pre` (innermost first): each is blocked, not inside a
+    janet_call, and the fiber directly below it does not have `sig` in its mask.  `s'` is `s` where exactly those callers
+    took status `sig` (their code, environment and continuation untouched); `c'` is the outermost fiber passed. -/
+inductive Passes (sig : Nat) (v : Val) : State → FId → List FId → State → FId → Prop where
+  | nil (s : State) (c : FId) : Passes sig v s c [] s c
+  | cons (s : State) (c p : FId) (pre : List FId) (s' : State) (c' : FId) (fp fc : Fiber) (cont : Cont) :
+      s.fiber? p = some fp → s.fiber? c = some fc → fp.ctl = .wait cont → inCcall fp = false →
+      sig ≠ sigOk → testBit fc.mask sig = false →
+      Passes sig v (s.setFiber p { fp with status := sig, last := if fp.status = stAlive then v else fc.last,
+                                           child := if (staleChildCleared && fp.status != stAlive && fc.status == stAlive) = true then none else fp.child })
+        p pre s' c' →
+      Passes sig v s c (p :: pre) s' c'
+
+theorem unwind_passes {sig : Nat} {v : Val} {s : State} {c : FId} {pre : List FId} {s' : State} {c' : FId}
+    (h : Passes sig v s c pre s' c') (rest : List FId) :
+    unwind s (pre ++ rest) c sig v = unwind s' rest c' sig v := by
+  induction h with
+  | nil s c => rfl
+  | cons s c p pre s' c' fp fc cont hp hc hw hcc hsig hrej _ ih =>
+    rw [List.cons_append, unwind]
+    simpa [hp, hc, hw, hcc, hsig, hrej] using ih
+
+/-- ★ A signal raised inside nested fibers is delivered to the nearest enclosing fiber whose mask accepts it:
+    after passing every rejecting level (any number of them — induction on the nesting depth), the first fiber `x`
+    whose mask has the bit hands the value to ITS resumer `q`, which continues with exactly that value. -/
+theorem signal_delivered_to_nearest_accepting {sig : Nat} {v : Val} {s : State} {c : FId} {pre : List FId} {s' : State} {x : FId}
+    (h : Passes sig v s c pre s' x) (q : FId) (rest : List FId) (fq fx : Fiber) (cont : Cont)
+    (hq : s'.fiber? q = some fq) (hx : s'.fiber? x = some fx) (hw : fq.ctl = .wait cont)
+    (hacc : testBit fx.mask sig = true) (halive : fq.status = stAlive) (hnn : cont.isNext = false) :
+    unwind s (pre ++ q :: rest) c sig v
+      = deliverValue { s' with stack := q :: rest } q { fq with child := none } cont v := by
+  rw [unwind_passes h, unwind]
+  simp [hq, hx, hw, hacc, halive, hnn]
+
+/-- ★ … and no other fiber sees it: a fiber that is not one of the callers the signal is handed to is left exactly
+    as it was (status, code, environment, child, pending signal), whatever the depth. -/
+theorem no_other_fiber_sees_it (stack : List FId) (s : State) (c : FId) (sig : Nat) (v : Val) (g : FId) (hg : g ∉ stack) :
+    (unwind s stack c sig v).fiber? g = s.fiber? g :=
+  unwind_other stack s c sig v g hg
+
+/-- … in particular callers outside the passed prefix, other than the catcher's resumer, are untouched as well. -/
+theorem delivery_touches_only_receiver (s : State) (q : FId) (fq : Fiber) (cont : Cont) (v : Val) (g : FId) (hg : g ≠ q) :
+    (deliverValue s q fq cont v).fiber? g = s.fiber? g :=
+  deliverValue_other s q fq cont v g hg
+
+/-- The documented meaning of the `fiber/new` mask letters, checked against the regenerated table and bit layout. -/
+theorem mask_letters_sound :
+    (∀ sig, sig < 14 → testBit (maskOfFlags [116]) sig = [sigError, sigUser0, sigUser1, sigUser2, sigUser3, sigUser4].contains sig) ∧
+    (∀ sig, sig < 14 → testBit (maskOfFlags [97]) sig = (sig != sigOk)) ∧
+    (∀ sig, sig < 14 → testBit (maskOfFlags [101]) sig = (sig == sigError)) ∧
+    (∀ sig, sig < 14 → testBit (maskOfFlags [121]) sig = (sig == sigYield)) ∧
+    (∀ sig, sig < 14 → testBit (maskOfFlags [117]) sig = (sigUser0 ≤ sig && sig ≤ sigUser9)) ∧
+    (∀ n, n < 10 → ∀ sig, sig < 14 → testBit (maskOfFlags [48 + n]) sig = (sig == userBase + n)) ∧
+    (∀ sig, sig < 14 → testBit (maskOfFlags [105, 112]) sig = false) ∧
+    userBase = sigUser0 ∧ userMax = 9 ∧ cancelSignal = sigError ∧
+    (∀ i, i < 14 → i ≠ 12 → i ≠ 13 → signalNames.getD i "" = statusNames.getD i "" ∨ i = 0 ∨ i = 3) := by
+  decide
+
+/-! ## cleanup forms -/
+
+/-- the instruction at which the parent of a `defer` body is blocked: `(def r (resume f))`, then the cleanup `form` -/
+def deferCont (n : Nat) (form : Tm) : Cont :=
+  .bindK 0 (.block 0 form (.prim 0 (.status (.var n))
+    (.ite (.var (n + 3)) (kwA "dead") (.ret (.var (n + 1)))
+      (.prim 0 (.propagate (.var (n + 1)) (.var n)) (.ret (.var (n + 4))))))) false
+
+/-- `deferTm` is: create the body fiber with mask :ti, then block in `deferCont`. -/
+theorem deferTm_shape (n l : Nat) (form body k : Tm) :
+    deferTm n l form body k = .block l (.new 0 body flagsTI (.prim 0 (.resume (.var n) nilA)
+      (match deferCont n form with | .bindK _ k' _ => k' | .loopK .. => .ret nilA))) k := rfl
+
+/-- signals after which a fiber is finished / still resumable -/
+def exitSignals : List Nat := [sigOk, sigError, sigUser0, sigUser1, sigUser2, sigUser3, sigUser4]
+def suspendSignals : List Nat := [sigDebug, sigYield, sigUser5, sigUser6, sigUser7, sigUser8, sigUser9]
+
+/-- One arrival of a signal of the body fiber `f` (mask :ti) at the parent `p` blocked in `cont`
+    (the transducer step behind defer / edefer / with):
+    * exit signal (return, error — which is also what `cancel` injects —, user0-4): the parent continues with the code
+      after the resume, i.e. the cleanup form runs next, with the value bound; the body fiber is then finished, so by
+      `finished_never_resumes` no second arrival can follow: **once**;
+    * any other signal (yield, user5-9, debug): the parent does NOT run; it takes the signal's status, stays blocked at
+      the same instruction with the same continuation, and the signal goes further up: **not before the exit**. -/
+theorem cleanup_arrival (s : State) (p f : FId) (rest : List FId) (fp ff : Fiber) (cont : Cont) (sig : Nat) (v : Val)
+    (hp : s.fiber? p = some fp) (hf : s.fiber? f = some ff) (hw : fp.ctl = .wait cont) (hnn : cont.isNext = false)
+    (hmask : ff.mask = maskOfFlags flagsTI) (halive : fp.status = stAlive) (hcc : inCcall fp = false) :
+    (sig ∈ exitSignals →
+      unwind s (p :: rest) f sig v = deliverValue { s with stack := p :: rest } p { fp with child := none } cont v) ∧
+    (sig ∈ suspendSignals →
+      unwind s (p :: rest) f sig v
+        = unwind (s.setFiber p { fp with status := sig, last := v }) rest p sig v) := by
+  constructor
+  · intro hs
+    have hcase : sig = sigOk ∨ testBit ff.mask sig = true := by
+      rw [hmask]
+      simp only [exitSignals, List.mem_cons, List.mem_nil_iff, or_false] at hs
+      rcases hs with h | h | h | h | h | h | h <;> subst h <;> decide
+    rw [unwind]
+    simp [hp, hf, hw, hcase, halive, hnn]
+  · intro hs
+    have hrej : sig ≠ sigOk ∧ testBit ff.mask sig = false := by
+      rw [hmask]
+      simp only [suspendSignals, List.mem_cons, List.mem_nil_iff, or_false] at hs
+      rcases hs with h | h | h | h | h | h | h <;> subst h <;> decide
+    rw [unwind]
+    simp [hp, hf, hw, hrej.1, hrej.2, halive, hcc]
+
+/-- ☆ `defer`: for every body script and every way the body fiber stops running — return, error, user signals,
+    cancel (= injected error), propagate — the cleanup form is what the parent runs next exactly when the stop is an
+    exit, and after an exit the body can never be re-entered.
+    PARTIAL: proved per arrival of a body signal (`cleanup_arrival` + `finished_never_resumes`), for all states, bodies and
+    forms.  NOT proved: the composition over whole executions, i.e. that the parent's blocked `(resume f)` is completed
+    by nothing but an arrival from its body fiber (holds in the model because a blocked fiber is only written by
+    `unwind`; checked on the implementation by the correspondence and by oracle rule R5). -/
+theorem defer_runs_exactly_once_partial (n : Nat) (form : Tm) (s : State) (p f : FId) (rest : List FId) (fp ff : Fiber)
+    (sig : Nat) (v : Val) (hp : s.fiber? p = some fp) (hf : s.fiber? f = some ff) (hw : fp.ctl = .wait (deferCont n form))
+    (hmask : ff.mask = maskOfFlags flagsTI) (halive : fp.status = stAlive) (hcc : inCcall fp = false) (hlen : p < s.fibers.length) :
+    (sig ∈ exitSignals →
+      (unwind s (p :: rest) f sig v).fiber? p
+        = some { fp with child := none, env := fp.env ++ [v],
+                         ctl := .run (.block 0 form (.prim 0 (.status (.var n))
+                            (.ite (.var (n + 3)) (kwA "dead") (.ret (.var (n + 1)))
+                              (.prim 0 (.propagate (.var (n + 1)) (.var n)) (.ret (.var (n + 4))))))) } ∧
+      isFinished sig = true) ∧
+    (sig ∈ suspendSignals → p ∉ rest →
+      (unwind s (p :: rest) f sig v).fiber? p = some { fp with status := sig, last := v } ∧ isFinished sig = false) := by
+  have h := cleanup_arrival s p f rest fp ff (deferCont n form) sig v hp hf hw rfl hmask halive hcc
+  constructor
+  · intro hs
+    constructor
+    · rw [h.1 hs]
+      exact deliver_binds_value _ p _ 0 _ v hlen
+    · simp only [exitSignals, List.mem_cons, List.mem_nil_iff, or_false] at hs
+      rcases hs with h | h | h | h | h | h | h <;> subst h <;> decide
+  · intro hs hnr
+    constructor
+    · rw [h.2 hs, unwind_other _ _ _ _ _ _ hnr]
+      unfold State.setFiber State.fiber?
+      simp [hlen]
+    · simp only [suspendSignals, List.mem_cons, List.mem_nil_iff, or_false] at hs
+      rcases hs with h | h | h | h | h | h | h <;> subst h <;> decide
+
+
+/-- `edefer` blocks in the same way with its own continuation (status test first, cleanup only on a non-dead exit);
+    `with` is `(def x ctor)` followed by `defer`; both create the body fiber with mask :ti, so `cleanup_arrival`
+    applies verbatim.  PARTIAL in the same sense as `defer_runs_exactly_once_partial`. -/
+theorem edefer_runs_exactly_once_partial (n l : Nat) (form body k : Tm) :
+    (∃ K, edeferTm n l form body k = .block l (.new 0 body flagsTI (.prim 0 (.resume (.var n) nilA) K)) k) ∧
+    (∀ sig, sig ∈ exitSignals → sig = sigOk ∨ testBit (maskOfFlags flagsTI) sig = true) ∧
+    (∀ sig, sig ∈ suspendSignals → sig ≠ sigOk ∧ testBit (maskOfFlags flagsTI) sig = false) := by
+  refine ⟨⟨_, rfl⟩, ?_, ?_⟩ <;> decide
+
+theorem with_runs_exactly_once_partial (n l : Nat) (ctor : Prim) (dtor body k : Tm) :
+    withTm n l ctor dtor body k
+      = .block l (.prim 0 ctor (deferTm (n + 1) 0 (.prim 0 (.pure (.var n)) dtor) body (.ret (.var (n + 1))))) k := rfl
+
+/-- `try`: the body fiber has mask :ie — only an error (or the return) reaches the parent, whose next instruction
+    tests `(= (fiber/status f) :error)`; every other signal, including user0-4 which finish the body, passes the
+    parent by (it takes the same status and its catch clause never runs).  PARTIAL as above. -/
+theorem try_catch_runs_exactly_once_partial (s : State) (p f : FId) (rest : List FId) (fp ff : Fiber) (cont : Cont) (sig : Nat) (v : Val)
+    (hp : s.fiber? p = some fp) (hf : s.fiber? f = some ff) (hw : fp.ctl = .wait cont) (hnn : cont.isNext = false)
+    (hmask : ff.mask = maskOfFlags flagsIE) (halive : fp.status = stAlive) (hcc : inCcall fp = false) (hs : sig < 14) :
+    ((sig = sigOk ∨ sig = sigError) →
+      unwind s (p :: rest) f sig v = deliverValue { s with stack := p :: rest } p { fp with child := none } cont v) ∧
+    (¬ (sig = sigOk ∨ sig = sigError) →
+      unwind s (p :: rest) f sig v = unwind (s.setFiber p { fp with status := sig, last := v }) rest p sig v) := by
+  constructor
+  · intro h
+    have hcase : sig = sigOk ∨ testBit ff.mask sig = true := by
+      rw [hmask]; rcases h with h | h <;> subst h <;> decide
+    rw [unwind]
+    simp [hp, hf, hw, hcase, halive, hnn]
+  · intro h
+    have hrej : sig ≠ sigOk ∧ testBit ff.mask sig = false := by
+      rw [hmask]
+      have : ∀ n, n < 14 → ¬ (n = sigOk ∨ n = sigError) → n ≠ sigOk ∧ testBit (maskOfFlags flagsIE) n = false := by decide
+      exact this sig hs h
+    rw [unwind]
+    simp [hp, hf, hw, hrej.1, hrej.2, halive, hcc]
+
+/-! ## status -/
+
+/-- ☆ status_monotone, PARTIAL.  Proved (all states): entering a fiber through `startRun` makes a new / suspended fiber
+    alive, or — when a cancel left a pending signal — gives it that signal's status; `raise` gives the running fiber the
+    status of its signal (`Passes`: every caller the signal passes takes that same status and nothing else changes); fibers
+    outside the caller chain keep their status (`no_other_fiber_sees_it`); finished fibers are never entered
+    (`finished_never_resumes`, `resume_finished_raises`).  NOT proved: the global invariant "no finished fiber is ever on
+    `State.stack`" that turns these into `finished → status constant` for every `step`; the oracle rule R1 checks that
+    on every implementation trace. -/
+theorem status_monotone_partial (s : State) (stk : List FId) (f : FId) (ff : Fiber) (v : Val) (t : Tm)
+    (hlen : f < s.fibers.length) (hpend : ff.pending = none) (hctl : ff.ctl = .run t) :
+    ((startRun s stk f ff v).fiber? f).map (·.status) = some stAlive := by
+  unfold startRun
+  simp only [hpend, hctl]
+  unfold State.setFiber State.fiber?
+  simp [hlen]
+
+/-- non-vacuity of the cleanup theorems: a concrete parent blocked in a defer, body fiber with mask :ti -/
+example : ∃ (s : State) (fp ff : Fiber), s.fiber? 1 = some fp ∧ s.fiber? 2 = some ff ∧ fp.ctl = .wait (deferCont 0 (.ret nilA)) ∧
+    ff.mask = maskOfFlags flagsTI ∧ fp.status = stAlive ∧ inCcall fp = false ∧ 1 < s.fibers.length :=
+  ⟨{ fibers := [default, { status := stAlive, mask := 0, ctl := .wait (deferCont 0 (.ret nilA)) },
+                { status := stAlive, mask := maskOfFlags flagsTI, ctl := .run (.ret nilA) }] }, _, _, rfl, rfl, rfl, rfl, rfl, rfl, by decide⟩
+
+/-- the model really runs: a defer whose body yields, is cancelled, and whose cleanup then runs exactly once (label 6) -/
+example :
+    let body : Tm := .prim 3 (.pure (.lit (.int 10))) (.prim 4 (.yield (.lit (.int 11))) (.ret (.lit (.int 13))))
+    let form : Tm := .prim 6 (.pure (.lit (.int 20))) (.ret (.lit (.int 21)))
+    let fb : Tm := deferTm 0 7 form body (.ret (.var 0))
+    let t : Tm := .new 1 fb [121] (.prim 8 (.resume (.var 0) (.lit (.int 30))) (.prim 9 (.cancel (.var 0) (.lit (.int 31))) (.ret (.var 2))))
+    let s := run 200 (init t [97])
+    ((s.trace.filter (fun e => e.l == 6)).length, s.halt.isSome) = (1, true) := by
+  decide
+
+/-! ## dynamic bindings -/
+
+/-- ★ dyn visibility, exactly the env / prototype rules of `fiber/new`:
+    (1) a fiber without environment sees nothing;
+    (2) a binding is visible in the fiber that set it;
+    (3) a child created with :i has the same table, hence sees exactly what the parent sees (and vice versa);
+    (4) a child created with :p starts with an empty table whose prototype is the parent's: it sees the parent's bindings;
+    (5) … and what it sets itself shadows, without changing the parent's table. -/
+theorem dyn_visibility (denvs : List DEnv) (fuel : Nat) (k : Nat) :
+    dynLookup denvs (fuel + 1) none k = .nil ∧
+    (∀ e d v, denvs[e]? = some d → v ≠ .nil →
+        dynLookup (denvs.set e { d with tbl := tblPut d.tbl k v }) (fuel + 1) (some e) k = v) ∧
+    (∀ e, dynLookup denvs (fuel + 1) (some e) k = dynLookup denvs (fuel + 1) (some e) k) ∧
+    (∀ e, e < denvs.length →
+        dynLookup (denvs ++ [{ proto := some e, tbl := [] }]) (fuel + 2) (some denvs.length) k
+          = dynLookup (denvs ++ [{ proto := some e, tbl := [] }]) (fuel + 1) (some e) k) ∧
+    (∀ e e' d, e ≠ e' → (denvs.set e' d)[e]? = denvs[e]?) := by
+  refine ⟨rfl, ?_, fun _ => rfl, ?_, ?_⟩
+  · intro e d v he hv
+    have hlt : e < denvs.length := by
+      rcases Nat.lt_or_ge e denvs.length with h | h
+      · exact h
+      · simp [List.getElem?_eq_none h] at he
+    simp [dynLookup, hlt, tblPut, hv]
+  · intro e _
+    simp [dynLookup]
+  · intro e e' d hne
+    exact List.getElem?_set_ne (Ne.symm hne)
+
+end JanetModel.Props.C05
